@@ -92,7 +92,10 @@ impl Dump {
 
     let input = env.read(target.clone())?;
 
-    let value = Value::from_bencode(&input.data).unwrap();
+    let value = Infohash::decode_value(&input.data).map_err(|error| Error::MetainfoDecode {
+      input: target,
+      error,
+    })?;
 
     outln!(env, "{}", Fmt(&value))?;
 
